@@ -20,6 +20,7 @@ import (
 	"fmt"
 	"io"
 	"log"
+	"log/slog"
 	"net"
 	"net/http"
 	"os"
@@ -49,6 +50,17 @@ type optT struct {
 	ExclCT    []string `json:",omitempty"`
 	ExclPaths []string `json:",omitempty"`
 	ExclExts  []string `json:",omitempty"`
+	// Seq, when present, is the exact list of options handed to compression.New, in order (repeated, overridden,
+	// clamped, split); the fields above then only say what the generator expects it to amount to — the model
+	// computes the configuration from Seq itself (case tag O)
+	Seq []optItem `json:",omitempty"`
+}
+
+// optItem is one functional option: gl / bl / ms <N>, nb, ng, lg, ep / ee / ect <L>
+type optItem struct {
+	K string
+	N int      `json:",omitempty"`
+	L []string `json:",omitempty"`
 }
 
 // opT is one step of the handler program (high level: what the handler source says).
@@ -447,6 +459,33 @@ type respT struct {
 
 func buildOpts(o optT) []compression.Option {
 	var opts []compression.Option
+	if len(o.Seq) > 0 {
+		for _, it := range o.Seq {
+			switch it.K {
+			case "gl":
+				opts = append(opts, compression.WithGzipLevel(it.N))
+			case "bl":
+				opts = append(opts, compression.WithBrotliLevel(it.N))
+			case "ms":
+				opts = append(opts, compression.WithMinSize(it.N))
+			case "nb":
+				opts = append(opts, compression.WithBrotliDisabled())
+			case "ng":
+				opts = append(opts, compression.WithGzipDisabled())
+			case "lg":
+				opts = append(opts, compression.WithLogger(slog.New(slog.NewTextHandler(io.Discard, nil))))
+			case "ep":
+				opts = append(opts, compression.WithExcludePaths(it.L...))
+			case "ee":
+				opts = append(opts, compression.WithExcludeExtensions(it.L...))
+			case "ect":
+				opts = append(opts, compression.WithExcludeContentTypes(it.L...))
+			default:
+				panic("harness: unknown option item " + it.K)
+			}
+		}
+		return opts
+	}
 	opts = append(opts, compression.WithMinSize(o.MinSize))
 	if o.NoGzip {
 		opts = append(opts, compression.WithGzipDisabled())
@@ -1124,9 +1163,26 @@ func emitGroup(id string, group []caseT, st *hx.Stats, only int, poisoned, seq b
 }
 
 func render(id string, k *caseT, prims []primT, plain, with respT, st *hx.Stats, comment *caseT) string {
-	l := hx.NewLine(id).Tok(modelTag())
 	o := k.Opt
-	l.Nat(o.MinSize).Bool(!o.NoGzip).Bool(!o.NoBr).Strs(o.ExclCT).Strs(o.ExclPaths).Strs(o.ExclExts)
+	var l *hx.Line
+	if len(o.Seq) > 0 && modelTag() == "N" {
+		l = hx.NewLine(id).Tok("O").Nat(len(o.Seq))
+		for _, it := range o.Seq {
+			l.Tok(it.K)
+			switch it.K {
+			case "gl", "bl", "ms":
+				l.Tok(strconv.Itoa(it.N))
+			case "ep", "ee", "ect":
+				l.Strs(it.L)
+			}
+		}
+		if st != nil {
+			st.Count("options_as_sequence")
+		}
+	} else {
+		l = hx.NewLine(id).Tok(modelTag())
+		l.Nat(o.MinSize).Bool(!o.NoGzip).Bool(!o.NoBr).Strs(o.ExclCT).Strs(o.ExclPaths).Strs(o.ExclExts)
+	}
 	l.Str(k.Path)
 	if k.AE != nil {
 		l.Str(*k.AE)
